@@ -2,7 +2,9 @@
     [bpe_tokenize c s] = [BPETokenizer::new(c)] + [tokenize(s, true)] ([None] = constructor error),
     [bpe_decode tbl ids] = [de_tokenize(ids, true)] as bytes, [eff_table c] = the merge table after
     the [max_vocab_size] cut. No well-formedness of the table is needed. *)
-From TU Require Import Base BPE_Model C01_Model C02_Model C02_Inv C02_Loop C02_Proofs C02_Check C02_String.
+From TU Require Import Base BPE_Model C01_Model C02_Model C02_Inv C02_Loop C02_Proofs C02_Check C02_String
+  MsgPack_Model C02_File C02_FileProofs.
+From Coq Require Import Permutation.
 Open Scope N_scope.
 
 (** Lossless: decoding the ids gives the UTF-8 bytes of the text without its trailing whitespace. *)
@@ -108,3 +110,71 @@ Proof. repeat constructor. Qed.
 Example ex_run : bpe_tokenize ex_cfg [32;97;98;32;228;32;32] = Some [259;257;32;195;164]
   /\ bpe_decode (eff_table ex_cfg) [259;257;32;195;164] = [32;97;98;32;195;164].
 Proof. vm_compute. split; reflexivity. Qed.
+
+(** * The merge file inside the model (third session; MsgPack_Model.v, MsgPack_Props.v, C02_File.v)
+    [BPETokenizer::new] = [MergeOps::load] (the MessagePack reader [mp_parse]; of two entries with one key the later
+    wins: [fm_get]) + [retain(id < limit)] + the reverse table sorted by id + [HashMap::get] in the merge loop.
+    [load_table bs = Loaded tbl]: the file loads and its ids are exactly 0..n-1, [tbl] = the keys in id order. *)
+
+(** [HashMap::get] on the loaded map is [lookup] (position) in the table the models use. *)
+Theorem load_get_lookup : forall bs tbl, load_table bs = Loaded tbl ->
+  exists es rest, mp_parse bs = Some (es, rest) /\ NoDup tbl /\ forall k, fm_get es k = lookup tbl k.
+Proof. exact load_get_lookup_l. Qed.
+Print Assumptions load_get_lookup.
+
+(** [retain(|_, id| id < limit)] on that map is [firstn limit] of the table ([eff_table]). *)
+Theorem retain_firstn : forall tbl lim k, NoDup tbl ->
+  match lookup tbl k with Some i => if i <? lim then Some i else None | None => None end
+  = lookup (firstn (N.to_nat lim) tbl) k.
+Proof. exact retain_firstn_l. Qed.
+Print Assumptions retain_firstn.
+
+(** Hence the tokenizer built from ANY byte string the loader model accepts as a table is lossless. *)
+Theorem file_lossless : forall fb tbl c s, load_table fb = Loaded tbl -> c_tbl c = tbl ->
+  Forall valid_cp s -> config_ok c = true ->
+  exists ids, bpe_tokenize c s = Some ids /\
+    bpe_decode (eff_table c) ids = utf8s (strip_trailing_ws s) /\
+    Forall (fun id => id < vocab_size c) ids.
+Proof. exact file_lossless_l. Qed.
+Print Assumptions file_lossless.
+
+(** The executable statement with the file in it ([check_C02f]: the table is the one the file holds) is true of the
+    model's own output ([run_C02f]: explicit file bytes are decoded by the model) ... *)
+Theorem check_run_f : forall v, Forall valid_cp (v_str (v_nth 5 v)) -> check_C02f v (run_C02f v) = true.
+Proof. exact check_run_f_l. Qed.
+Print Assumptions check_run_f.
+
+(** ... and a [true] on an implementation output for an explicit file that loads as [tbl] means: the ids are
+    vocabulary ids of the tokenizer with table [tbl] and the decoded bytes are the UTF-8 of the stripped text. *)
+Theorem check_sound_f : forall v out fb tbl, in_file v = Some fb -> load_table fb = Loaded tbl ->
+  config_ok (v_config (with_table v tbl)) = true -> check_C02f v out = true ->
+  c_tbl (v_config (with_table v tbl)) = tbl /\
+  exists ids vs, strip_file out = L [list_v n_v ids; L [list_v n_v (utf8s (strip_trailing_ws (v_str (v_nth 5 v))))]; vs] /\
+                 Forall (fun id => id < vocab_size (v_config (with_table v tbl))) ids.
+Proof. exact check_sound_f_l. Qed.
+Print Assumptions check_sound_f.
+
+(** What an accepted correspondence says about the file the crate's [save] wrote (fields 3, 4 of the implementation
+    output): it is [mp_encode] of the input table's entries (id = position) in some order, nothing behind, it loads
+    as the input's table, and the real [MergeOps::load] read these entries. *)
+Theorem agree_saved_sound : forall v m a b c fb lv, in_file v = None -> agree_C02f v m (L [a; b; c; fb; lv]) = true ->
+  m = L [a; b; c] /\
+  exists es, v_list v_n fb = mp_encode es /\ mp_parse (v_list v_n fb) = Some (es, []) /\
+             Permutation es (entries_of_table (v_table (v_nth 0 v))) /\
+             load_table (v_list v_n fb) = Loaded (v_table (v_nth 0 v)) /\ v_entries lv = sort_items es.
+Proof. exact agree_saved_sound_l. Qed.
+Print Assumptions agree_saved_sound.
+
+(** Non-vacuity: the table of [ex_cfg] written in the order id 2, 0, 1 with a map16 header, a bin key, an int16 id
+    and two bytes of garbage behind the map loads as that table; the input with these bytes as explicit file. *)
+Definition ex_file : list N :=
+  [222; 0; 3;  196; 2; 195; 164; 2;  146; 32; 97; 209; 0; 0;  147; 32; 97; 98; 1;  7; 7].
+Example ex_file_loads : load_table ex_file = Loaded (c_tbl ex_cfg).
+Proof. vm_compute. reflexivity. Qed.
+Definition ex_file_input : val :=
+  L [L []; L [I 260]; L [L [I 60; I 112; I 62]; L [I 60; I 98; I 62]]; L [L [I 60; I 98; I 62]]; L [];
+     L [I 32; I 97; I 98; I 32; I 228; I 32; I 32]; L [list_v n_v ex_file]].
+Example ex_file_run : in_file ex_file_input = Some ex_file /\
+  config_ok (v_config (with_table ex_file_input (c_tbl ex_cfg))) = true /\
+  run_C02f ex_file_input = L [L [I 259; I 257; I 32; I 195; I 164]; L [L [I 32; I 97; I 98; I 32; I 195; I 164]]; I 260].
+Proof. vm_compute. repeat split; reflexivity. Qed.
